@@ -236,17 +236,33 @@ class Replayer:
         return self.events
 
 
-def replay_many(kind, weighted, behaviours, n, families=("ident",), seed=0, full=True, cc=False,
-                copies=False, queries=True, plan=None, exhaustive_derive=True):
-    traces, meta = [], []
-    for i, ops in enumerate(behaviours):
-        fam = families[i % len(families)]
-        r = Replayer(kind, weighted, n, fam, seed=seed * 100003 + i, full=full, cc=cc, copies=copies,
+def _replay_chunk(args):
+    (kind, weighted, n, items, full, cc, copies, queries, plan, exhaustive_derive) = args
+    out = []
+    for (ops, fam, sd) in items:
+        r = Replayer(kind, weighted, n, fam, seed=sd, full=full, cc=cc, copies=copies,
                      queries=queries, plan=plan, exhaustive_derive=exhaustive_derive)
-        traces.append(r.run(ops))
-        meta.append({"family": fam, "seed": seed * 100003 + i, "labels": r.b.labels, "skipped": r.skipped,
-                     "ops": ops})
-    return traces, meta
+        tr = r.run(ops)
+        out.append((tr, {"family": fam, "seed": sd, "labels": r.b.labels, "skipped": r.skipped, "ops": ops}))
+    return out
+
+
+def replay_many(kind, weighted, behaviours, n, families=("ident",), seed=0, full=True, cc=False,
+                copies=False, queries=True, plan=None, exhaustive_derive=True, procs=None):
+    """replays are independent and deterministic given their seed: large sets are spread over processes"""
+    items = [(ops, families[i % len(families)], seed * 100003 + i) for i, ops in enumerate(behaviours)]
+    common = (full, cc, copies, queries, plan, exhaustive_derive)
+    if procs is None:
+        procs = 1 if len(items) < 400 else 12
+    if procs <= 1:
+        res = _replay_chunk((kind, weighted, n, items) + common)
+    else:
+        import multiprocessing as mp
+        size = max(20, len(items) // (procs * 4) + 1)
+        chunks = [(kind, weighted, n, items[i:i + size]) + common for i in range(0, len(items), size)]
+        with mp.get_context("fork").Pool(procs) as pool:
+            res = [x for part in pool.map(_replay_chunk, chunks) for x in part]
+    return [t for t, _ in res], [m for _, m in res]
 
 
 # ---------------------------------------------------------------------------
